@@ -43,12 +43,14 @@ ASSUMPTIONS = ['Gauss quadrature of the degree chosen per geometry (2 affine map
                'exceptions raised by nutils while applying an operation (NotImplementedError, ValueError, KeyError, TypeError for NotImplemented, '
                'and AttributeError for trimmed (Mosaic) elements that cannot be refined / topologies without a connectivity table) are refusals: counted, never violations',
                'periodic axes are generated with >= 3 elements (1- and 2-element periodic axes make an element its own / a double neighbour)']
-BUDGET_S = {'quick': 100, 'thorough': 1500}
 import os
-NCASES = {'quick': int(os.environ.get('C10_NCASES', 700)), 'thorough': int(os.environ.get('C10_NCASES', 16000))}
+# C10_NCASES / C10_BUDGET: development overrides only (planted-break runs on a loaded machine)
+NCASES = {'quick': int(os.environ.get('C10_NCASES', 700)), 'thorough': int(os.environ.get('C10_NCASES', 10000))}
+BUDGET_S = {'quick': int(os.environ.get('C10_BUDGET', 100)), 'thorough': int(os.environ.get('C10_BUDGET', 1500))}
 CHUNK = 10
 EVERY3D = {'quick': 10, 'thorough': 5}
 KNOWN = 'C10-refined-trimmed-simplex-boundary'
+KNOWN2 = 'C10-retrimmed-3d-mosaic-inconsistent'
 
 # AttributeErrors that are nutils' way of saying "not supported" on the pinned tree
 UNSUPPORTED = ("'MosaicReference' object has no attribute", "'OwnChildReference' object has no attribute", "'WithChildrenReference' object has no attribute",
@@ -77,6 +79,17 @@ def unsupported(e):
     return topogen.is_refusal(e) or (type(e) in (AttributeError, Exception) and any(s in str(e) for s in UNSUPPORTED))
 
 
+def monitor_refusal(e):
+    """What a successfully constructed topology may answer when asked for its boundary / interfaces / integrals."""
+    if isinstance(e, NotImplementedError):
+        return True
+    if type(e) in (AttributeError, Exception) and any(s in str(e) for s in UNSUPPORTED):
+        return True
+    if isinstance(e, ValueError) and ('0D topology' in str(e) or 'Cannot unambiguously compute the normal' in str(e)):
+        return True
+    return False
+
+
 class Bench:
     """Cache of integrals per (topology, geometry) within one history."""
 
@@ -96,7 +109,8 @@ class Bench:
             try:
                 self.cache[key] = fn()
             except Exception as e:
-                if not unsupported(e):
+                manifold = getattr(topo, 'ndims', 0) < geom.shape[0]
+                if not (monitor_refusal(e) or (manifold and unsupported(e))):
                     raise
                 self.res.count('unavailable/' + what)
                 self.res.add('unavailable_signatures', what + ': ' + topogen.signature(e))
@@ -162,17 +176,39 @@ class Bench:
         return self._get('itf', topo, geom, fn)
 
     def edges(self, topo, geom, geom0):
-        """sum over elements of the measure of the element's own boundary; per-edge centroids for plain references."""
+        """per element: measure, int n dS and int x.n dS over the element's own boundary (all non-empty edges of its reference)."""
         from nutils import function, topology, types
 
         def fn():
             refs = topo.references.edges
             sel = types.frozenarray([i for i, r in enumerate(refs) if r], dtype=int)
             tr = topo.transforms.edges(topo.references)[sel]
+            if topo.ndims == 1:
+                # side observation (not C10): on the pinned tree function.normal over 0-D UniformDerivedTransforms.edges() of a uniform 1-D
+                # topology evaluates to +1 at both ends of every element; the same chains as PlainTransforms give the outward +-1
+                from nutils import transformseq
+                tr = transformseq.PlainTransforms(tuple(tr), tr.todims, tr.fromdims)
             E = topology.TransformChainsTopology(topo.space, refs.take(sel), tr, tr)
-            self.res.count('integrals')
-            total = float(E.integrate(function.J(geom0 if self.quad else geom), degree=self.deg)) if len(E) else 0.
-            return dict(total=total, topo=E, sel=numpy.asarray(sel))
+            D = geom.shape[0]
+            full = topo.ndims == D
+            n = len(topo)
+            offsets = numpy.cumsum([0] + [r.nedges for r in topo.references])
+            owner = numpy.searchsorted(offsets, numpy.asarray(sel), side='right') - 1
+            out = dict(topo=E, sel=numpy.asarray(sel), owner=owner, full=full, m_el=numpy.zeros(n), z_el=numpy.zeros((n, D)), f_el=numpy.zeros(n))
+            if len(E):
+                self.res.count('integrals')
+                J = function.J(geom)
+                Js = function.J(geom0) if self.quad else J
+                if full:
+                    nrm = function.normal(geom)
+                    m, z, f = E.integrate_elementwise([Js, nrm * J, (geom @ nrm) * J], degree=self.deg)
+                    numpy.add.at(out['z_el'], owner, z)
+                    numpy.add.at(out['f_el'], owner, f)
+                else:
+                    m = E.integrate_elementwise(Js, degree=self.deg)
+                numpy.add.at(out['m_el'], owner, m)
+            out['total'] = float(out['m_el'].sum())
+            return out
         return self._get('edges', topo, geom, fn)
 
 
@@ -343,6 +379,7 @@ class Monitors:
         try:
             neg = base - pos if len(pos) else base
             parts.append(('base - pos', neg))
+            info['neg'] = neg
         except Exception as e:
             if not unsupported(e):
                 raise
@@ -351,6 +388,7 @@ class Monitors:
         try:
             neg2 = base.trim(-info['levelset'], maxrefine=info['maxrefine'], ndivisions=info['ndivisions'], name=name)
             self.res.count('monitor/negated_trim')
+            info['neg2'] = neg2
             if neg is not None and len(neg2) == len(neg) and tuple(neg2.references) == tuple(neg.references) and \
                     (len(neg) == 0 or tuple(neg2.transforms) == tuple(neg.transforms)):
                 self.res.count('negated_trim_identical_to_complement')   # same elements, same references: nothing new to integrate
@@ -448,6 +486,9 @@ class Monitors:
         v = self.bench.vol(topo, geom)
         if v is None:
             return
+        conn = self.connectivity_table(topo, geom, geom0) if topo.ndims >= 1 else None
+        if self.problems:
+            return
         b = self.bench.bnd(topo, geom, geom0) if topo.ndims >= 1 else None
         i = self.bench.itf(topo, geom, geom0) if topo.ndims >= 1 else None
         s = self.scale(v['vol'], b['area'] if b else 0., i['area'] if i else 0.)
@@ -489,9 +530,14 @@ class Monitors:
             if e is not None:
                 self.res.count('monitor/face_ledger')
                 self.cmp('face-measure ledger', 'sum_e |de| vs |dT| + 2 |interfaces|', e['total'], b['area'] + 2 * i['area'], s)
-        # (iv) connectivity
-        if pairs is not None:
-            self.connectivity(topo, geom, geom0, pairs)
+                if e['full'] and v['vol_e'] is not None:
+                    # (f) every element is closed by its own edges (trimmed elements: the mosaic's simplices fill the hull of its edges)
+                    self.res.count('monitor/element_closure')
+                    self.cmp('element closure', 'int n dS over the boundary of each element', e['z_el'], numpy.zeros_like(e['z_el']), s)
+                    self.cmp('element closure', 'int x.n dS over the boundary of each element vs dim*vol(element)', e['f_el'], D * v['vol_e'], s)
+        # (iv) connectivity table against the interfaces
+        if pairs is not None and conn is not None:
+            self.connectivity_pairs(topo, conn, pairs)
 
     def periodic_jumps(self, jumps, step):
         ticks = topogen.mesh_ticks(self.h['mesh'])
@@ -506,54 +552,76 @@ class Monitors:
         if bad.any():
             self.fail('interfaces', f'[[x]] on an interface is neither 0 nor a period: {jumps[bad.any(1)][:3].tolist()} periods {periods.tolist()}')
 
-    def connectivity(self, topo, geom, geom0, pairs):
+    def connectivity_table(self, topo, geom, geom0):
+        """(iv) self-consistency of the connectivity table, independent of boundary/interfaces: shape, range, symmetry; for trimmed
+        topologies the table must be the base table renumbered; for conforming untrimmed meshes paired faces have coinciding centroids."""
+        from nutils import topology
         try:
             conn = topo.connectivity
+            refs = topo.references
         except (AttributeError, NotImplementedError):
             self.res.count('unavailable/connectivity')
-            return
-        from collections import Counter
-        refs = topo.references
+            return None
         n = len(topo)
-        plain = len(topogen.cut_elements(topo)) == 0
         self.res.count('monitor/connectivity')
-        cpairs = Counter()
         if len(conn) != n:
             self.fail('connectivity', f'connectivity table has {len(conn)} rows for {n} elements')
-            return
+            return None
         for ie, row in enumerate(conn):
-            ref = refs[ie]
-            if len(row) != ref.nedges:
-                self.fail('connectivity', f'row {ie} has {len(row)} entries for {ref.nedges} edges')
-                return
+            if len(row) != refs[ie].nedges:
+                self.fail('connectivity', f'row {ie} has {len(row)} entries for {refs[ie].nedges} edges')
+                return None
+            for je in row:
+                je = int(je)
+                if je >= n or je < -1:
+                    self.fail('connectivity', f'row {ie} refers to element {je} of {n}')
+                    return None
+                if je >= 0 and ie not in conn[je]:
+                    self.fail('connectivity', f'not symmetric: {ie} lists {je} but {je} lists {list(map(int, conn[je]))}')
+                    return None
+        S = topo
+        while isinstance(S, topology.WithGroupsTopology):
+            S = S.basetopo
+        if isinstance(S, topology.SubsetTopology):
+            try:
+                bconn = S.basetopo.connectivity
+                bidx = [int(S.basetopo.transforms.index(t)) for t in S.transforms]
+            except (AttributeError, NotImplementedError, ValueError):
+                bconn = None
+            if bconn is not None:
+                self.res.count('monitor/connectivity_subset_model')
+                renum = {b: k for k, b in enumerate(bidx)}
+                for ie, b in enumerate(bidx):
+                    want = [renum.get(int(j), -1) for j in bconn[b]]
+                    got = [int(j) for j in conn[ie]]
+                    if got[:len(want)] != want or any(j != -1 for j in got[len(want):]):
+                        self.fail('connectivity', f'element {ie} (base element {b}): table row {got}, base table renumbered {want}')
+                        return None
+        if len(topogen.cut_elements(topo)) == 0 and not self.bench.periodic and hasattr(topo, 'transforms'):
+            self.face_centroids(topo, geom, geom0, conn)
+        return conn
+
+    def connectivity_pairs(self, topo, conn, pairs):
+        from collections import Counter
+        refs = topo.references
+        cpairs = Counter()
+        for ie, row in enumerate(conn):
             for k, je in enumerate(row):
                 je = int(je)
-                if je < 0:
-                    continue
-                if je >= n:
-                    self.fail('connectivity', f'row {ie} refers to element {je} of {n}')
-                    return
-                if ie not in conn[je]:
-                    self.fail('connectivity', f'not symmetric: {ie} lists {je} but {je} lists {list(map(int, conn[je]))}')
-                    return
-                if ref.edge_refs[k]:
+                if je >= 0 and refs[ie].edge_refs[k]:
                     cpairs[(min(ie, je), max(ie, je))] += 1
         ipairs = Counter(pairs)
+        self.res.count('monitor/connectivity_vs_interfaces')
         if not set(ipairs) <= set(cpairs):
             self.fail('connectivity', f'interfaces between element pairs that the connectivity table does not list: {sorted(set(ipairs) - set(cpairs))[:5]}')
             return
-        if plain:
+        if len(topogen.cut_elements(topo)) == 0:
             # conforming, untrimmed: every interior face is listed once from either side
             want = Counter({k: 2 * c for k, c in ipairs.items()})
-            if hasattr(topo, 'basetopo') and type(topo).__name__ == 'HierarchicalTopology':
-                return
             if want != cpairs:
                 diff = sorted((set(want) | set(cpairs)), key=str)
                 diff = [(k, want.get(k, 0), cpairs.get(k, 0)) for k in diff if want.get(k, 0) != cpairs.get(k, 0)]
                 self.fail('connectivity', f'connectivity table and interfaces disagree (pair, 2*interfaces, table entries): {diff[:5]}')
-                return
-            if not self.bench.periodic:
-                self.face_centroids(topo, geom, geom0, conn)
 
     def face_centroids(self, topo, geom, geom0, conn):
         e = self.bench.edges(topo, geom, geom0)
@@ -649,6 +717,85 @@ def known_mechanism(mon, history, step, monitors):
     return True, f'boundary lacks exactly the cut edges (measure {pa:.6g}) of the hierarchically refined simplex elements {sorted(owners)} of the trimmed topology'
 
 
+def _retrimmed(topo):
+    """elements whose reference is a mosaic of a mosaic: an element cut a second time at the same refinement level"""
+    from nutils import element
+    return {i for i, r in enumerate(topo.references) if isinstance(r, element.MosaicReference) and isinstance(r.baseref, element.MosaicReference)}
+
+
+def _element_defects(mon, topo, geom, geom0):
+    """indices of the elements that are not closed by their own edges (outside the pass band), or None if not computable"""
+    v, e = mon.bench.vol(topo, geom), mon.bench.edges(topo, geom, geom0)
+    if v is None or e is None or v['vol_e'] is None or not e['full']:
+        return None
+    D = geom.shape[0]
+    tol = 1e-9 * mon.scale(v['vol'])
+    bad = (numpy.abs(e['z_el']).max(1) > tol) | (numpy.abs(e['f_el'] - D * v['vol_e']) > tol)
+    return set(numpy.nonzero(bad)[0].tolist())
+
+
+def known_retrim(mon, history, step, monitors):
+    """Predicate for the open finding C10-retrimmed-3d-mosaic-inconsistent.  All of:
+    * the failing step is a trim of a 3-D topology, and only the trim partition / shared cut / element closure / boundary closure monitors fail;
+    * in pos, base-pos and trim(-levelset) every element that is not closed by its own edges is a 3-D mosaic of a mosaic
+      (an element of the base that was already cut at this level and is cut again), and there is at least one;
+    * every base element whose measure is not partitioned is the parent of such an element;
+    * if boundary closure fails for the result: its boundary integrals equal the sums of the per-element edge integrals (the assembly of
+      boundary and interfaces is consistent), so the defect is confined to those elements.
+    Returns (bool, explanation)."""
+    if step.op['op'] != 'trim':
+        return False, 'not a trim'
+    allowed = ('trim partitions the measure', 'trimmed boundaries share the cut', 'element closure', 'boundary closure')
+    if not monitors or not all(m in allowed for m in monitors):
+        return False, 'other monitors failed'
+    info = step.info
+    geom, geom0 = mon.mgeom(step), step.geom0
+    base, pos = info['base'], info['pos']
+    if base.ndims != 3 or geom.shape[0] != 3:
+        return False, 'not 3-D'
+    vb = mon.bench.vol(base, geom)
+    if vb is None or vb['vol_e'] is None:
+        return False, 'no element measures'
+    tol = 1e-9 * mon.scale(vb['vol'])
+    culprits = set()   # base elements that are parents of defective retrimmed elements
+    ndefect = 0
+    parts = [('pos', pos)] + [(k, info[k]) for k in ('neg', 'neg2') if info.get(k) is not None]
+    for label, T in parts:
+        if not len(T):
+            continue
+        bad = _element_defects(mon, T, geom, geom0)
+        if bad is None:
+            return False, f'element closure of {label} not computable'
+        if not bad <= _retrimmed(T):
+            return False, f'{label} has defective elements that are not retrimmed mosaics: {sorted(bad - _retrimmed(T))[:5]}'
+        par, _ = parents(base, T, exact=True)
+        culprits |= {int(par[i]) for i in bad}
+        ndefect += len(bad)
+    if not ndefect:
+        return False, 'no defective retrimmed element'
+    vpos = mon.bench.vol(pos, geom) if len(pos) else None
+    for label, T in parts[1:]:
+        acc = numpy.zeros(len(base))
+        for X in (pos, T):
+            if len(X):
+                vX = mon.bench.vol(X, geom)
+                par, _ = parents(base, X, exact=True)
+                numpy.add.at(acc, par, vX['vol_e'])
+        off = set(numpy.nonzero(numpy.abs(acc - vb['vol_e']) > tol)[0].tolist())
+        if not off <= culprits:
+            return False, f'measure not partitioned (pos + {label}) on base elements {sorted(off - culprits)[:5]} that have no defective retrimmed child'
+    if 'boundary closure' in monitors:
+        T = step.topo
+        b, i, e = mon.bench.bnd(T, geom, geom0), mon.bench.itf(T, geom, geom0), mon.bench.edges(T, geom, geom0)
+        if b is None or i is None or e is None:
+            return False, 'assembly not computable'
+        s = mon.scale(b['area'], i['area'])
+        ok = numpy.abs(e['z_el'].sum(0) - b['z']).max() <= 1e-9 * s and abs(e['f_el'].sum() - (b['flux'] - i['jumpn'])) <= 1e-9 * s
+        if not ok:
+            return False, 'boundary integrals differ from the summed element edge integrals'
+    return True, f'{ndefect} element(s) cut a second time (3-D mosaic of a mosaic, children of base elements {sorted(culprits)}) are not closed by their own edges; everything else is consistent'
+
+
 # ------------------------------------------------------------------ one history
 
 def evaluate(history, res):
@@ -711,12 +858,17 @@ def evaluate(history, res):
                     res.note(f'monitor error after {kind}: {topogen.signature(e)} :: {traceback.format_exc()[-300:]} :: {json.dumps(history)[:300]}')
                     return None, [], None
             if mon.problems:
-                try:
-                    known, why = known_mechanism(mon, history, step, [m for m, _ in mon.problems])
-                except Exception as e:
-                    known, why = False, 'predicate could not be evaluated: ' + topogen.signature(e)
-                mon.problems = [(m, d + (f' [{why}]' if known else '')) for m, d in mon.problems]
-                return step.index, mon.problems, (KNOWN if known else None)
+                mech, why = None, ''
+                for fid, pred in (KNOWN, known_mechanism), (KNOWN2, known_retrim):
+                    try:
+                        known, why = pred(mon, history, step, [m for m, _ in mon.problems])
+                    except Exception as e:
+                        known, why = False, 'predicate could not be evaluated: ' + topogen.signature(e)
+                    if known:
+                        mech = fid
+                        break
+                mon.problems = [(m, d + (f' [{why}]' if mech else '')) for m, d in mon.problems]
+                return step.index, mon.problems, mech
         res.count('histories_clean')
     return None, [], None
 
@@ -781,6 +933,7 @@ def execute(case, res, deadline=None):
     res.count('violating_histories')
     if mech:
         res.count('known_finding_histories')
+        res.count('known_finding/' + mech)
     vcase = dict(index=case.get('index'), history=small, step=idx, original_ops=topogen.history_kinds(history))
     seen = set()
     for m, d in probs:
@@ -848,7 +1001,26 @@ def repro_refined_trimmed_simplex():
     return False, 'boundary of the hierarchically refined trimmed line is closed'
 
 
-REPRODUCERS = {KNOWN: repro_refined_trimmed_simplex}
+def repro_retrimmed_3d_mosaic():
+    """one cube, trimmed by the product of two oblique planes (maxrefine 0), the complement trimmed again by a plane (maxrefine 0):
+    vol(pos) + vol(base - pos) != vol(base); nutils' own Reference.check_edges reports the divergence failure for pos."""
+    history = dict(version=1, ndims=3, mesh=dict(kind='rect', ndims=3, shape=[2, 1, 1], periodic=[]), geom=dict(kind='identity'),
+                   ops=[dict(op='slice', ranges=[[0.34, 1.0], [0.25, 1.0], [0.25, 1.0]]),
+                        dict(op='trim', levelset=dict(kind='product', planes=[dict(kind='plane', normal=[-0.45857182684234904, 0.10460597148587386, 0.8824791614287373], offset=-0.3539658553564752),
+                                                                              dict(kind='plane', normal=[0.4712051227388746, 0.6909674169629693, 0.5482059476147302], offset=1.4294286983850455)], tag='repro'),
+                             maxrefine=0, ndivisions=8, name='trim1', side='-'),
+                        dict(op='trim', levelset=dict(kind='plane', normal=[0.20262794816285154, 0.597952009213375, -0.7754968145008724], offset=0.03850833414300592, tag='repro'),
+                             maxrefine=0, ndivisions=8, name='trim2', side='-')])
+    idx, probs, mech = evaluate(history, Result())
+    part = [d for m, d in probs if m == 'trim partitions the measure']
+    if part and mech == KNOWN2:
+        return True, 'cube.trim(plane*plane, maxrefine=0) complement .trim(plane, maxrefine=0): ' + part[0][:330]
+    if probs:
+        return None, 'reproducer fails differently: ' + '; '.join(f'{m}: {d}' for m, d in probs)[:400]
+    return False, 'retrimmed 3-D element is partitioned exactly'
+
+
+REPRODUCERS = {KNOWN: repro_refined_trimmed_simplex, KNOWN2: repro_retrimmed_3d_mosaic}
 
 
 # ------------------------------------------------------------------ finalize
@@ -883,14 +1055,16 @@ def finalize(m, tier, seed):
     mon = cov['monitors']
     inc = None
     need = ['refine_elementwise', 'selection_elementwise', 'trim_partition', 'trim_elementwise', 'trim_cut_nonempty', 'closure_normal', 'closure_flux',
-            'interfaces_resolved', 'face_ledger', 'connectivity', 'connectivity_centroids', 'trim_union', 'periodic_jumps']
+            'interfaces_resolved', 'face_ledger', 'connectivity', 'connectivity_centroids', 'connectivity_subset_model', 'connectivity_vs_interfaces',
+            'trim_union', 'negated_trim', 'periodic_jumps']
     floor = 20 if tier == 'quick' else 200
-    if cov['evaluations'] < 0.6 * NCASES[tier]:
+    opfloor = 3 if tier == 'quick' else 20
+    if cov['evaluations'] < 0.5 * NCASES[tier]:
         inc = f"only {cov['evaluations']} of {NCASES[tier]} histories ran before the deadline"
     elif [k for k in need if mon.get(k, 0) < floor]:
         inc = 'monitors barely reached: ' + ', '.join(f'{k}={mon.get(k, 0)}' for k in need if mon.get(k, 0) < floor)
-    elif [k for k in topogen.OP_KINDS if ops.get(k, {}).get('applied', 0) < 5]:
-        inc = 'operation kinds never applied: ' + ', '.join(k for k in topogen.OP_KINDS if ops.get(k, {}).get('applied', 0) < 5)
+    elif [k for k in topogen.OP_KINDS if ops.get(k, {}).get('applied', 0) < opfloor]:
+        inc = 'operation kinds (almost) never applied: ' + ', '.join(k for k in topogen.OP_KINDS if ops.get(k, {}).get('applied', 0) < opfloor)
     elif cov['monitor_errors'] + cov['harness_exceptions'] > 0.02 * cov['evaluations']:
         inc = f"{cov['monitor_errors']} monitor errors / {cov['harness_exceptions']} harness exceptions: {cov['monitor_error_signatures'][:3]}"
     elif cov['marginal'] > 0.005 * max(1, cov['comparisons']):
